@@ -2,7 +2,7 @@
     read_loop2, net_read2) is the reader of C05 (Model/NetRead.v) with the end of the
     stream told apart, so the stream lemma of C05 carries over; a reset leaves nothing
     behind. *)
-From Qv Require Import Common.Bytes Gen.GenNetio Model.NetRead Spec.LineSpec Proofs.NetReadProofs Model.TlsClient.
+From Qv Require Import Common.Bytes Gen.GenNetio Gen.GenStarttls Model.NetRead Spec.LineSpec Proofs.NetReadProofs Model.TlsClient.
 
 Definition erase (it : ritem) : item :=
   match it with
@@ -62,6 +62,27 @@ Proof.
   - discriminate.
 Qed.
 
+(** loop_long() gives up only when the stream is used up *)
+Lemma loop_long_none fuel : forall e hc e', length (rest e) < fuel ->
+  loop_long fuel e hc = (None, e') -> rest e' = [].
+Proof.
+  pose proof LB as HLB.
+  induction fuel as [|fuel IH]; intros e hc e' Hf H; [inversion Hf|]. cbn [loop_long] in H.
+  destruct (readinput e LINEINBUF) as [[b e1]|] eqn:Er.
+  2:{ inversion H; subst. eapply readinput_none; eassumption. }
+  destruct (readinput_spec _ _ _ _ Er) as (Hrest & _ & Hne).
+  assert (Hb : b <> []) by (apply Hne; lia).
+  assert (Hr1 : length (rest e1) < fuel).
+  { apply (f_equal (@length _)) in Hrest. rewrite app_length in Hrest. destruct b; [congruence|simpl in Hrest; lia]. }
+  destruct (hc && N.eqb (nth 0 b 0%N) LF); [discriminate|].
+  destruct (find_eol b) as [p valid]. destruct p as [p|]; [|eapply IH; eassumption].
+  destruct (negb valid && Nat.eqb p (length b) && N.eqb (nth (p - 1) b 0%N) CR); [eapply IH; eassumption|discriminate].
+Qed.
+
+(** whichever way loop_long() reads (Gen: [ST_LOOPLONG_PASSES_FATAL]), a reset behind it leaves the state of a reset *)
+Lemma long_end_is_reset e2 s' : (long_end, {| inn := []; en := e2 |}) = (RReset, s') -> s' = {| inn := []; en := e2 |}.
+Proof. unfold long_end. destruct ST_LOOPLONG_PASSES_FATAL; intros H; inversion H; subst. reflexivity. Qed.
+
 Lemma read_loop2_reset fuel : forall buf e s',
   read_loop2 fuel buf e = (RReset, s') -> inn s' = [] /\ rest (en s') = [].
 Proof.
@@ -73,9 +94,13 @@ Proof.
   destruct (if retry then None else p) as [p'|].
   - destruct valid; [discriminate|].
     destruct (Nat.eqb p' (LINEINBUF - 1) && N.eqb (nth (p' - 1) (buf ++ d) 0%N) CR); [|discriminate].
-    destruct (loop_long (S (length (rest e1))) e1 true) as [[i|] e2]; discriminate.
+    destruct (loop_long (S (length (rest e1))) e1 true) as [[i|] e2] eqn:El; [discriminate|].
+    apply long_end_is_reset in H. subst s'. cbn [inn en]. split; [reflexivity|].
+    eapply loop_long_none; [|exact El]. lia.
   - destruct (Nat.ltb (length (buf ++ d)) (LINEINBUF - 1)); [eapply IH; eassumption|].
-    destruct (loop_long (S (length (rest e1))) e1 false) as [[i|] e2]; discriminate.
+    destruct (loop_long (S (length (rest e1))) e1 false) as [[i|] e2] eqn:El; [discriminate|].
+    apply long_end_is_reset in H. subst s'. cbn [inn en]. split; [reflexivity|].
+    eapply loop_long_none; [|exact El]. lia.
 Qed.
 
 Lemma net_read2_reset s s' :
